@@ -660,6 +660,13 @@ pub enum Plan {
 /// selects None and keeps parsing until `limit` is reached. When `model` is given, deliveries
 /// are checked against it as they happen.
 pub fn run_schedule(d: &mut SDriver, rng: &mut Rng, chunk: &mut Chunking, pol: &Policy, plans: &[Plan], order: &[u8], model: Option<&StreamModel>) {
+    run_schedule_ext(d, rng, chunk, pol, plans, order, model, false);
+}
+
+/// `stop_at_none`: return as soon as the caller has selected `None` as the active stream,
+/// without parsing any further (look-ahead behind a held terminator stays un-interpreted).
+#[allow(clippy::too_many_arguments)]
+pub fn run_schedule_ext(d: &mut SDriver, rng: &mut Rng, chunk: &mut Chunking, pol: &Policy, plans: &[Plan], order: &[u8], model: Option<&StreamModel>, stop_at_none: bool) {
     let budget = 8 * d.limit as u64 + 4000;
     let mut steps = 0u64;
     let mut idle = 0u32;
@@ -781,6 +788,9 @@ pub fn run_schedule(d: &mut SDriver, rng: &mut Rng, chunk: &mut Chunking, pol: &
                 }
                 idle = 0;
                 calls_in_epoch = 0;
+                if stop_at_none && next.is_none() {
+                    return;
+                }
                 continue;
             }
         }
